@@ -74,12 +74,10 @@ def sector_cfg(s, nobj=3, maxsize=5, mut="none", chunk=3, emit=False, view=True)
     return c + ("CONSTRAINT EmitScript\n" if emit else "INVARIANTS Durable\n")
 
 
-def check_sector(tier):
-    t0 = time.time()
-    sd = vlib.seed()
+def sector_conformance(tier, binary, work, sd):
+    """SectorWriter.tla model check + replay of its behaviours on the real block-device backed block.
+    Returns (states, transitions, models, scripts, n_events, rejects, validator_states, mutant verdict)."""
     quick = tier == "quick"
-    binary = vlib.go_build_test("store")
-    work = vlib.scratch("sector")
     states = trans = 0
     models = []
     for s, kw in ([(2, {}), (3, {})] if quick else [(2, {}), (3, {}), (4, dict(maxsize=6)), (2, dict(nobj=4, maxsize=3)), (3, dict(nobj=4, maxsize=4))]):
@@ -97,20 +95,30 @@ def check_sector(tier):
                           sim_seed=sd * 37 + s, workers=1, marker_sink=lambda m, o: scripts.append(o), timeout=3000)
         if not rs.ok:
             raise Broken("SectorWriter simulation failed: %s %s" % (rs.violated, rs.error))
-    sp = os.path.join(work, "scripts.ndjson")
+    os.makedirs(work, exist_ok=True)
+    sp = os.path.join(work, "sector_scripts.ndjson")
     vlib.write_ndjson(sp, scripts)
     rc, out = vlib.run_harness(binary, "TestSector", {"STORE_OUT": work, "STORE_SCRIPTS": sp}, timeout=3000)
     if rc != 0:
         raise Broken("sector harness failed:\n" + out[-3000:])
     n_events, rejects, vstates = validate_obs("SectorContractTrace", os.path.join(work, "sector.ndjson"))
+    return states, trans, models, scripts, n_events, rejects, vstates, rm.violated
+
+
+def check_sector(tier):
+    t0 = time.time()
+    sd = vlib.seed()
+    binary = vlib.go_build_test("store")
+    work = vlib.scratch("sector")
+    states, trans, models, scripts, n_events, rejects, vstates, mv = sector_conformance(tier, binary, work, sd)
     for i, rj in enumerate(rejects):
         path = vlib.save_replay("extra_sector", "s%d_%d" % (sd, i), {"observation.json": rj["event"]})
         print("VIOLATION property=EXTRA-sector replay=%s" % path)
         log("  rejected observation: %s" % json.dumps({k: v for k, v in rj["event"].items() if k != "snaps"})[:500])
     cov = {"states": states, "transitions": trans, "traces_validated_against_impl": n_events, "models": models, "scripts": len(scripts),
-           "mutants_killed": {"reuse_shared_sector": rm.violated}, "trace_validator_states": vstates, "samples": scripts[:1]}
+           "mutants_killed": {"reuse_shared_sector": mv}, "trace_validator_states": vstates, "samples": scripts[:1]}
     vlib.write_evidence("extra_sector", tier, "model_checking", cov, time.time() - t0, len(rejects),
-                        ["not one of the listed properties by itself: the sector sharing that C01 depends on",
+                        ["the sector sharing that C01 depends on (also run as part of the C01 check)",
                          "one block on a simulated device; objects of 1-6 bytes, sectors of 2-4 bytes, chunks of 1-3 bytes; cooperative schedule taken from the model's behaviour (the validating buffer layer delays a writer's last chunk until its end-of-stream probe)"])
     return 1 if rejects else 0
 
